@@ -381,18 +381,22 @@ class World:
         exon_ids: optional dict (chrom,start,end,strand) -> exon_id string."""
         id_map = id_map or {}
         lines = []
+
+        def src(fid):
+            # features that carry IsoQuant-style ids (an extended annotation fed back as reference) also carry IsoQuant's source column
+            return "IsoQuant" if (fid.startswith("novel_gene_") or (fid.startswith("transcript") and fid.endswith((".nic", ".nnic")))) else "vsynth"
         for chrom in self.chrom_order:
             genes = sorted([g for g in self.genes if g.chrom == chrom and g.transcripts], key=lambda g: (g.start, g.id))
             for g in genes:
                 gid = id_map.get(g.id, g.id)
                 meta_here = with_meta and g.id not in no_meta_genes      # genes described by exon records only (legal GTF)
                 if meta_here:
-                    lines.append("\t".join([chrom, "vsynth", "gene", str(g.start), str(g.end), ".", g.strand, ".",
+                    lines.append("\t".join([chrom, src(gid), "gene", str(g.start), str(g.end), ".", g.strand, ".",
                                             'gene_id "%s"; gene_name "%s";' % (gid, gid)]))
                 for t in g.transcripts:
                     tid = id_map.get(t.id, t.id)
                     if meta_here:
-                        lines.append("\t".join([chrom, "vsynth", "transcript", str(t.start), str(t.end), ".",
+                        lines.append("\t".join([chrom, src(tid), "transcript", str(t.start), str(t.end), ".",
                                                 t.strand, ".",
                                                 'gene_id "%s"; transcript_id "%s";' % (gid, tid)]))
                     for e in t.exons:
@@ -401,7 +405,7 @@ class World:
                             k = (chrom, e[0], e[1], t.strand)
                             if k in exon_ids:
                                 attr += ' exon_id "%s";' % exon_ids[k]
-                        lines.append("\t".join([chrom, "vsynth", "exon", str(e[0]), str(e[1]), ".", t.strand, ".",
+                        lines.append("\t".join([chrom, src(tid), "exon", str(e[0]), str(e[1]), ".", t.strand, ".",
                                                 attr]))
         return lines
 
